@@ -180,6 +180,15 @@ pub struct EstSnap {
 pub struct Snap {
     pub lists: Vec<Vec<Ent>>,
     pub scalars: Vec<u64>,
+    /// capacities of the inner lists as they really are (hooks): hidden state that decides future
+    /// evictions, so two objects that differ here are different states (no clause judges the values)
+    #[serde(default)]
+    pub inner: Vec<u64>,
+    /// 0 when every list passes the structural audit; otherwise a digest of the audit's (address-free)
+    /// complaints. An object whose chain is mis-linked can look like a legitimate state from the front;
+    /// with the digest in the key it is a state of its own and is explored further instead of merged.
+    #[serde(default)]
+    pub shape: u64,
     pub est: Option<EstSnap>,
     /// serial numbers of the tracked keys/values held (not part of the abstract state)
     #[serde(skip)]
@@ -206,6 +215,13 @@ impl Snap {
         }
         for s in &self.reported {
             b.extend_from_slice(&(*s as u32).to_le_bytes());
+        }
+        for s in &self.inner {
+            b.extend_from_slice(&(*s as u32).to_le_bytes());
+        }
+        if self.shape != 0 {
+            b.push(0xfc);
+            b.extend_from_slice(&self.shape.to_le_bytes());
         }
         if let Some(e) = &self.est {
             b.push(0xfd);
@@ -303,6 +319,11 @@ pub struct Cfg {
     /// (from `Default`), sizes/ratios last — so that every setter is exercised after every other
     #[serde(default)]
     pub builder_path: u8,
+    /// > 0: the driver allocates and frees unrelated heap blocks before construction and between
+    /// operations (pattern selected by the value), so that every node lands at a different address
+    /// than in the undisturbed run (C17: "where entries happen to be allocated")
+    #[serde(default)]
+    pub addr_noise: u8,
 }
 
 impl Cfg {
@@ -326,6 +347,7 @@ impl Cfg {
             prefill: vec![],
             relative: false,
             builder_path: 0,
+            addr_noise: 0,
         }
     }
     pub fn label(&self) -> String {
@@ -357,6 +379,9 @@ impl Cfg {
         }
         if self.builder_path != 0 {
             s += &format!("/builder_path={}", self.builder_path);
+        }
+        if self.addr_noise != 0 {
+            s += &format!("/addr_noise={}", self.addr_noise);
         }
         s
     }
